@@ -9,6 +9,12 @@ NOTE = old_checks["C12"]["level_note"]
 TECH = "Lean 4 theorem about an executable model + regenerated facts + differential correspondence"
 
 LEVEL = {
+ "C18": "Lean 4 theorems: the masks of unassigned bytes of every record the library builds and serialises (14 records / default objects), "
+        "re-measured from the current sources on every run by constructing each in place over 0x00 / 0xFF / 0xA5-filled storage, are empty, "
+        "hence the serialised image is independent of the garbage oracle (with the converse: a non-empty mask makes it depend on it); VOL and "
+        "CLM bytes invariant under permutation of the inputs; every scenario of the serialiser / parser families plus the default-constructed "
+        "objects is executed in three processes with different heap fill and automatic-variable initialisation (separate builds, ASLR on) and "
+        "must give identical canonical outputs equal to the model's; file sets packed in every order and through different path spellings",
  "C08": "Lean 4 theorems over a model of the indexed-BMP reader/writer/factories: the pitch law for all widths, read => valid (non-negative width, "
         "|height| rows of the minimal 4-byte multiple, palette <= 2^depth), write->read preserves geometry, palette and meaningful pixel bytes with "
         "zero padding, factory round trips for depths 1/4/8 and any dimensions, InvertScanLines reverses rows / negates height / is an involution; "
